@@ -1,6 +1,7 @@
 package props
 
 import (
+	"context"
 	"fmt"
 	"math/rand"
 	"net/url"
@@ -318,6 +319,7 @@ func c17Callback(r *core.Run, idx int, rng *rand.Rand) {
 	}
 	e := sc.build()
 	fault := ""
+	var reqCtx context.Context
 	if idx%5 == 2 {
 		// a storage operation of the callback fails: whatever page is produced is still exactly one form (or none)
 		ops := []string{"AuthRequestByID", "GetEntityIDByAppID", "SetUserinfoWithUserID", "GetResponseSigningKey"}
@@ -329,16 +331,38 @@ func c17Callback(r *core.Run, idx int, rng *rand.Rand) {
 		if op == "SetUserinfoWithUserID" && rng.Intn(2) == 0 {
 			kind = sim.FaultPartial
 		}
-		fault = op + "/" + kind
-		e.W.Plan = func(tag, o string, occ int) string {
-			if o == op {
-				return kind
+		if (op == "SetUserinfoWithUserID" || op == "GetResponseSigningKey") && rng.Intn(3) == 0 {
+			// the call hangs until the request's deadline passes and then gives up with the context's error
+			kind = "hangs_until_request_deadline"
+			var cancel context.CancelFunc
+			reqCtx, cancel = context.WithTimeout(context.Background(), 60*time.Millisecond)
+			defer cancel()
+			e.W.Before = func(ctx context.Context, _, o string, _ int) {
+				if o == op {
+					select {
+					case <-ctx.Done():
+						time.Sleep(2 * time.Millisecond) // whoever else waits for the deadline gets to run
+					case <-time.After(2 * time.Second):
+					}
+				}
 			}
-			return ""
+		}
+		fault = op + "/" + kind
+		if kind != "hangs_until_request_deadline" {
+			e.W.Plan = func(tag, o string, occ int) string {
+				if o == op {
+					return kind
+				}
+				return ""
+			}
 		}
 		r.Count("callback_pages_with_storage_fault", 1)
 	}
-	call := sc.callback(e)
+	call := e.Do(env.Req{Method: "GET", Path: env.PathLogin, Query: "id=" + url.QueryEscape(sc.S.ID), Host: sc.Host, Ctx: reqCtx})
+	if reqCtx != nil {
+		time.Sleep(5 * time.Millisecond) // anything that still writes to the reply after the handler returned
+		call.D = reply.Decode(call.Rec)
+	}
 	class := fmt.Sprintf("callback|done=%v", sc.Done)
 	if fault != "" {
 		class += "|fault=" + fault
